@@ -126,6 +126,7 @@ func (fr *Frame) doCall(in ssa.Instruction, cc *ssa.CallCommon, fv Val, args []V
 		// receiver nil check is done inside by dereferences
 		pre := fr.prefix + e.L.shortName(callee) + ":"
 		res, st, returns := e.runBody(callee, args, binds, fr.st, fr.pc, fr.depth+1, pre)
+		e.pcNow = fr.pc
 		if !returns {
 			// callee never returns on any path (always panics)
 			e.assume(mkNot(fr.pc))
@@ -386,6 +387,15 @@ func (fr *Frame) builtinAppend(in ssa.Instruction, args []Val, resT types.Type) 
 			}
 		}
 		v := e.freshVal(resT, "append", fr.pc)
+		// length (and only the length) of the result is known
+		tl := ""
+		if kindOf(t.T) == kSlice {
+			tl = t.sLen()
+		} else {
+			tl = app("slen", t.S)
+		}
+		e.assume(mkImp(fr.pc, mkAnd(mkEq(v.sLen(), app("bvadd", s.sLen(), tl)), mkNot(mkEq(v.sBase(), "0")), app("<=", v.sBase(), fr.st.alloc))))
+		v.NN = true
 		return v
 	}
 	es := leafSorts(el)[0]
